@@ -138,6 +138,12 @@ ParseAllowed(bs, res) ==
        LET img == Decode(bs) IN
        res[1] = "ok" /\ res[2] = img.w /\ res[3] = img.h /\ res[5] = img.pix
   /\ Truncated(bs) => res[1] = "err"
+  \* larger binary images (up to 2^20 pixels, beyond the size judged pixel by pixel) with all their data
+  \* present decode to an image of the stated dimensions
+  /\ LET hd == Header(bs)  per == IF hd.fmt = 6 THEN 3 ELSE 1 IN
+     (hd.ok /\ hd.max = 255 /\ hd.fmt \in {5, 6} /\ hd.w >= 1 /\ hd.h >= 1 /\ hd.w <= 1048576 /\ hd.h <= 1048576 \div hd.w
+        /\ hd.next <= Len(bs) /\ Len(bs) - hd.next >= per * hd.w * hd.h)
+       => (res[1] = "ok" /\ res[2] = hd.w /\ res[3] = hd.h)
 
 Allowed(e) ==
   CASE e.op = "parse" -> ParseAllowed(e.bytes, e.res)
